@@ -167,7 +167,7 @@ import typing as _typing
 LIST_FLAVOURS = {"List": List, "Sequence": Sequence, "MutableSequence": _typing.MutableSequence, "Iterable": _typing.Iterable, "abc.Sequence": _abc.Sequence,
                  "abc.MutableSequence": _abc.MutableSequence, "abc.Iterable": _abc.Iterable, "list": list}
 DICT_FLAVOURS = {"Dict": Dict, "Mapping": _typing.Mapping, "MutableMapping": _typing.MutableMapping, "abc.Mapping": _abc.Mapping, "abc.MutableMapping": _abc.MutableMapping, "dict": dict}
-SET_FLAVOURS = {"Set": Set, "MutableSet": _typing.MutableSet, "abc.MutableSet": _abc.MutableSet, "set": set}
+SET_FLAVOURS = {"Set": Set, "MutableSet": _typing.MutableSet, "abc.MutableSet": _abc.MutableSet, "set": set, "FrozenSet": _typing.FrozenSet, "frozenset": frozenset}
 
 
 def list_t(c, flavour="List"):
@@ -193,7 +193,7 @@ def vtuple_t(c):
 
 
 def set_t(c, flavour="Set"):
-    return T("set", SET_FLAVOURS[flavour][c.hint], f"{flavour}[{c.skel}]", [c])
+    return T("set", SET_FLAVOURS[flavour][c.hint], f"{flavour}[{c.skel}]", [c], extra="frozen" if flavour in ("FrozenSet", "frozenset") else None)
 
 
 HASHABLE_LEAF_KINDS = {"str", "int", "float", "bool", "enum", "rnum", "rstr", "literal"}
@@ -427,7 +427,7 @@ def conforming(rng, t, hostile=0.0, size=3):
             v = conforming(rng, t.children[0], 0.0, size - 1)
             if v is not None:
                 out.add(v)
-        return out
+        return frozenset(out) if t.extra == "frozen" else out
     if k == "dataclass":
         return dataclass_value(rng, t.extra, hostile)
     if k == "class":
